@@ -114,6 +114,21 @@ impl std::fmt::Write for Limited {
 }
 
 fn gen_matrix(rng: &mut Rng, idx: u64) -> Mat {
+    // index widths: one dimension beyond 2^16 (wide and tall), a few hundred ones, some at the boundaries
+    if idx % 32768 == 32767 && !cfg!(miri) {
+        let long = 65_537 + rng.below(5000);
+        let short = rng.range(1, 3);
+        let wide = rng.coin();
+        let (rows, cols) = if wide { (short, long) } else { (long, short) };
+        let mut e = Vec::new();
+        for _ in 0..300 {
+            e.push((rng.below(rows), rng.below(cols)));
+        }
+        for x in [0usize, 65_535, 65_536, long - 1] {
+            e.push(if wide { (rng.below(rows), x) } else { (x, rng.below(cols)) });
+        }
+        return Mat::new(rows, cols, e, if wide { "wide-beyond-2^16" } else { "tall-beyond-2^16" });
+    }
     let (maxr, maxc) = if idx % 8 == 7 { (30, 40) } else { (8, 10) };
     let rows = rng.range(1, maxr);
     let cols = rng.range(1, maxc);
@@ -399,7 +414,7 @@ fn check_parser_total(l: &mut crate::ctx::Local, text: &str, class: &str) {
 }
 
 pub fn run(run: &mut Run) {
-    run.rule = "matrices 1x1..30x40 in six density classes (all-zero, sparse, half, full, forced empty row+column, irregular) written in both alist forms, checked against a strict grammar and re-parsed; parser inputs: writer output, 13 kinds of mutated valid alists (incl. long tokens with multi-byte characters at every offset), token soups, declared dimensions <= 2000; non-trivial = string whose header parsed (reaches the column section) / matrix with a non-empty entry set or an empty line; distinct by string digest".into();
+    run.rule = "matrices 1x1..30x40 (every 32768th case 1..3 x 65537..70536 or its transpose: index widths) in six density classes (all-zero, sparse, half, full, forced empty row+column, irregular) written in both alist forms, checked against a strict grammar and re-parsed; parser inputs: writer output, 13 kinds of mutated valid alists (incl. long tokens with multi-byte characters at every offset), token soups, declared dimensions <= 2000; non-trivial = string whose header parsed (reaches the column section) / matrix with a non-empty entry set or an empty line; distinct by string digest".into();
     run.assumptions = vec![
         "declared dimensions above 2000 are skipped (a huge header legitimately allocates)".into(),
         "the strict grammar (header, max-weight line, weight lines, sorted 1-based lists, zero padding to the maximum in padded form) is the harness author's reading of MacKay's alist format".into(),
